@@ -62,6 +62,43 @@ CHECKS = {
          "catalogue object of each of 8 kinds in axis and Pythagorean frames is compared with a copy perturbed by eps/1000 or "
          "eps/100 (must be ==, hash-equal, mutually containing, coincident) and Points/Vectors 4 eps apart must differ; previous "
          "setting restored and re-evaluated. The spies list which comparison sites read the live setting.", "5 C19"),
+ "C07": ("history monitor: per-step probes of receiver and return value against a freshly constructed object and the exact translate; invariant hooks on live objects",
+         "Move histories (1-6 lattice moves, two aliasing-aware styles) on all seven types; after every step the moved receiver and "
+         "the returned object are probed - invariant hooks (carrier line follows the end points, plane/centre/point sets rebuilt), "
+         "denoted set vs the exactly translated descriptor, ==/hash vs a fresh object, `in`, intersection with partners, distance / "
+         "angle / parallel / orthogonal, measures - and the answers compared with the fresh object's; ends with move(v); move(-v).", "4 C07"),
+ "C08": ("representation-family monitor on ==, !=, hash and set deduplication; near-miss families; foreign-type comparison",
+         "For each base object an alternative exact representation of the same set (other defining points, scaled / negated "
+         "directions and normals, two-/three-point and two-vector forms, swapped endpoints, vertex rotations / reflections / "
+         "duplicates, face order and orientation, int/float/Fraction, move-and-back) must be ==, hash-equal and deduplicate in a "
+         "set; a robustly different near-miss must compare unequal both ways; == against foreign types must be False.", "4 C08"),
+ "C09": ("invariant hooks on constructed objects + set comparison with the exact hull; enumerated permutations / orientation patterns; library outputs fed back",
+         "ConvexPolygon from every permutation (<=5 vertices) / sampled permutations with duplicates: exact vertex set, cycle "
+         "counter-clockwise about the stored normal, -p and -(-p); ConvexPolyhedron from shuffled faces in every orientation "
+         "pattern (F<=6): outward normals, exact vertex/edge/face sets, Euler, edge-manifold, centre inside; intersection results "
+         "rebuilt from their own noisy vertices.", "4 C09"),
+ "C12": ("metamorphic trace monitor over nested intersection calls on the library's own outputs, exact oracle for admission and as third opinion",
+         "All 343 kind triples: idempotence, the containment law (exact containment), membership of every result vertex in both "
+         "operands, and (a∩b)∩c ~ a∩(b∩c) with the library's own intermediate results; the exact a∩b∩c tells which nesting is wrong.", "4 C12"),
+ "C13": ("metamorphic monitor: every query re-run on operands transformed by a signed axis permutation, lattice translation and scale",
+         "For each base pair and each sampled T among the 48 cube symmetries x translation x k in {1/2,1,2,3}: intersection / in / "
+         "distance / angle / parallel / orthogonal / == / length / area / volume on (Ta,Tb) must equal T applied to the answer on "
+         "(a,b); all 48 permutations are exercised for every query class.", "4 C13"),
+ "C14": ("spec-level monitor of builder outputs: invariant hooks, counts, vertex-on-circle / equal-angle tests, closed-form measures; purity snapshots of arguments",
+         "Parallelogram, Parallelepiped, Circle, Cylinder, Cone, Sphere over lattice centres, radii in (0.25,8), all 26 lattice "
+         "directions, random and near-axis directions (including the exact +-x, +-y, +-z), n 3..24, n1 3..12, n2 2..5: valid closed "
+         "convex result, V/E/F, vertices on the specified circles at equal angular steps, closed-form area/volume (rel 1e-9), "
+         "arguments unchanged.", "5 C14"),
+ "C15": ("exception monitor over a catalogue of invalid-input classes; exhaustive enumeration of unsupported operand-kind pairs; invariant hook on anything returned",
+         "Every invalid class of the property instantiated over positions/poses/magnitudes (exact and 1e-12-degenerate) must "
+         "raise; a return is a violation (for tolerance-degenerate input only if the returned object fails its invariant hook); "
+         "all 521 unsupported (function, kind, kind) combinations over 11 operand kinds and move() with non-Vector arguments must "
+         "raise NotImplementedError / ValueError / TypeError and never return a value or an exception instance.", "5 C15"),
+ "C20": ("purity / frame monitor: full public-attribute snapshots of every live object around every step of random query / mutation / copy histories",
+         "Worlds of 11 live objects built from shared argument objects; 5-30 step scripts of queries, in-place mutations of the "
+         "shared arguments, deep copies and moves; snapshots of all live objects are compared after every step (queries change "
+         "nothing; owners do not follow their arguments; copies are independent) and probe queries are answered before and after "
+         "the history.", "5 C20"),
 }
 
 
@@ -81,8 +118,7 @@ def main():
             "technique": tech,
         })
     allp = ["C%02d" % i for i in range(1, 21)]
-    na = [{"property_id": p, "reason": "check not built yet (framework under construction); will be claimed once its monitor exists"}
-          for p in allp if p not in CHECKS]
+    na = [{"property_id": p, "reason": "not claimed"} for p in allp if p not in CHECKS]
     man = {
         "version": 1,
         "setup_cmd": "/venv/bin/python -c \"import sys; assert sys.version_info >= (3, 12); import Geometry3D\" && chmod +x check",
